@@ -284,41 +284,39 @@ ALLOWED_AXIOMS = {
 
 
 def run_cases_v(name, body, timeout=900):
-  """Writes _build/cases/<name>.v with `body`, compiles it, returns (ok, output)."""
-  d = os.path.join(BUILD, "cases")
-  os.makedirs(d, exist_ok=True)
-  path = os.path.join(d, name + ".v")
-  with open(path, "w") as f:
-    f.write(body)
-  r = subprocess.run(["timeout", str(timeout), "coqc", "-Q", COQ, "PV", "-Q", d, "Cases", path],
-                     capture_output=True, text=True, cwd=d)
-  return r.returncode == 0, r.stdout + r.stderr
+  """Compiles one cases file; returns (ok, output)."""
+  return run_cases_parallel([(name, body)], timeout=timeout)[name]
 
 
-def run_cases_parallel(named_bodies, timeout=900):
-  """named_bodies: list of (name, body).  Compiles up to NCPU at a time.  Returns {name: (ok, out)}."""
-  d = os.path.join(BUILD, "cases")
+def run_cases_parallel(named_bodies, timeout=900, subdir=None):
+  """named_bodies: list of (name, body).  Compiles up to NCPU/2 at a time.  Returns {name: (ok, out)}.
+  Output goes to files (a PIPE would deadlock beyond 64 KB); each process of each property uses its own
+  directory so that concurrent runs do not collide."""
+  d = os.path.join(BUILD, "cases", subdir or ("p%d" % os.getpid()))
   os.makedirs(d, exist_ok=True)
-  procs = {}
   results = {}
   pending = list(named_bodies)
   running = {}
+  maxpar = max(2, NCPU // 2)
   while pending or running:
-    while pending and len(running) < NCPU:
+    while pending and len(running) < maxpar:
       name, body = pending.pop(0)
       path = os.path.join(d, name + ".v")
       with open(path, "w") as f:
         f.write(body)
-      running[name] = subprocess.Popen(
-          ["timeout", str(timeout), "coqc", "-Q", COQ, "PV", path],
-          stdout=subprocess.PIPE, stderr=subprocess.STDOUT, text=True, cwd=d)
-    done = [n for n, p in running.items() if p.poll() is not None]
+      outf = open(os.path.join(d, name + ".out"), "w")
+      running[name] = (subprocess.Popen(
+          ["timeout", str(timeout), "coqc", "-noglob", "-Q", COQ, "PV", path],
+          stdout=outf, stderr=subprocess.STDOUT, cwd=d), outf)
+    done = [n for n, (p, _) in running.items() if p.poll() is not None]
     if not done:
       time.sleep(0.05)
       continue
     for n in done:
-      p = running.pop(n)
-      results[n] = (p.returncode == 0, p.stdout.read())
+      p, outf = running.pop(n)
+      outf.close()
+      results[n] = (p.returncode == 0, open(os.path.join(d, n + ".out")).read())
+  shutil.rmtree(d, ignore_errors=True)
   return results
 
 
